@@ -655,8 +655,10 @@ def remove_oob(fns, src, nmax, which='remove', name=None):
     A = Arr('A', N)
     st = new_state()
     st.pc.append(UGE(IDX, N))
+    st.pc.append(UGE(N, bv(1)))      # `N: Sub<B1>`: the Remove impl only exists for N >= 1
     st.status[A] = LIVE
-    fn = ex.pick(ex.defaults[('Remove', which)])
+    # the impl's own method if it overrides the trait-provided one
+    fn = ex.pick(ex.index.get(('Remove', 'GenericArray', which)) or ex.defaults[('Remove', which)])
     t0, paths, unw = time.time(), 0, 0
     for (s2, kind, val) in ex.run_fn(st, fn, [A, IDX]):
         paths += 1
